@@ -303,12 +303,17 @@ def ser(x):
     if tp is tuple:
         return rec("tuple", items=[ser(i) for i in x])
     if tp is set:
-        xs = [ser(i) for i in x]
-        xs.sort(key=lambda d: json.dumps(d, sort_keys=True))
-        return rec("set", items=xs)
+        return rec("set", items=[ser(i) for i in _set_items(x)])
     if tp is dict:
         return rec("dict", items=[rec("pair", items=[ser(k), ser(v)]) for k, v in x.items()])
     return rec("other", [ord(ch) for ch in tp.__name__[:24]])
+
+
+def mixed_set(v):
+    """The value term holds a set whose elements are of different kinds.  pydra cannot hash such a
+    set (sorted() in bytes_repr_set, a cache-identity matter: properties C07/C08), so a task
+    holding one fails when run for a reason that is not the field's type."""
+    return (v["k"] == "set" and len({x["k"] for x in v["items"]}) > 1) or any(mixed_set(x) for x in v["items"])
 
 
 VIOLATION_FILE_CAP = 200
@@ -554,51 +559,62 @@ def coerce_sites(t_term, v_term, klass=None):
         routes += [("field_init", via_init), ("field_setattr", via_setattr)]
     for site, route in routes:
         acc, r, err = _attempt(lambda: route(to_value(v_term)))
-        o = {"site": site, "acc": acc, "err": err, "r": NONE_V, "r2acc": False, "r2": NONE_V, "err2": ""}
+        o = {"site": site, "acc": acc, "err": err, "r": NONE_V, "r2acc": False, "r2": NONE_V, "err2": "", "mw": []}
         if acc:
             o["r"] = ser(r)
             acc2, r2, err2 = _attempt(lambda: route(r))
             o["r2acc"], o["err2"] = acc2, err2
             if acc2:
                 o["r2"] = ser(r2)
+            # member-wise observations are only needed to compute the as-built prediction of a
+            # second coercion that did not give the stored value back
+            if not acc2 or o["r2"] != o["r"]:
+                o["mw"] = memberwise(t_term, r, site)
         sites.append(o)
     return sites
 
 
-def memberwise(t_term, r_term, site):
-    """Member-wise observations along the structure of the type for a stored value r (which
-    conforms): at every union position, what each member alone does with the component.
-    Paths: container item i / union member i appended (1-based), as TypeCoerce!ReAsBuilt."""
+def _set_items(x):
+    """Elements of a set in the order `ser` lists them."""
+    return sorted(x, key=lambda i: json.dumps(ser(i), sort_keys=True))
+
+
+def memberwise(t_term, r_obj, site):
+    """Member-wise observations along the structure of the type for a stored value r (the real
+    object, which conforms): at every union position, what each member alone does with the
+    component.  Paths: container item i / union member i appended (1-based), as
+    TypeCoerce!ReAsBuilt; items are taken in the order `ser` lists them."""
     from pydra.utils.typing import TypeParser
 
     sac = site != "parser"
     out = []
 
-    def walk(t, c_term, path):
+    def walk(t, c, path):
         k = t["k"]
         if k == "union":
             for i, m in enumerate(t["args"], 1):
                 e = {"p": path + [i], "acc": False, "abort": False, "r": NONE_V}
                 try:
-                    res = TypeParser(to_type(m), superclass_auto_cast=sac)(to_value(c_term))
+                    res = TypeParser(to_type(m), superclass_auto_cast=sac)(c)
                     e["acc"], e["r"] = True, ser(res)
                 except TypeError:
                     pass
                 except Exception:
                     e["abort"] = True
                 out.append(e)
-        elif k in ("list", "multi", "tuplev", "set"):
-            for i, x in enumerate(c_term["items"], 1):
+        elif k in ("list", "multi", "tuplev", "set") and isinstance(c, (list, tuple, set)):
+            items = _set_items(c) if isinstance(c, set) else list(c)
+            for i, x in enumerate(items, 1):
                 walk(t["args"][0], x, path + [i])
-        elif k == "tuple":
-            for i, x in enumerate(c_term["items"], 1):
+        elif k == "tuple" and isinstance(c, tuple):
+            for i, x in enumerate(c, 1):
                 if i <= len(t["args"]):
                     walk(t["args"][i - 1], x, path + [i])
-        elif k == "dict":
-            for i, x in enumerate(c_term["items"], 1):
-                walk(t["args"][0], x["items"][1], path + [i])
+        elif k == "dict" and isinstance(c, dict):
+            for i, x in enumerate(c.values(), 1):
+                walk(t["args"][0], x, path + [i])
 
-    walk(t_term, r_term, [])
+    walk(t_term, r_obj, [])
     return out
 
 
